@@ -5,7 +5,7 @@
    error travelling up -- never escapes), Fatal (FErr ..) (a pybtex error left the reader),
    Fatal FCrash (a foreign Python exception), Fatal FFuel (the model ran out of fuel). *)
 From Pybtex Require Import Base.Prelude Base.PyChar Base.PyStr Model.BibtexStr Model.Names
-  Model.Scanner Model.BibParser Proofs.Scanner Proofs.BibParser Proofs.BibStrict Proofs.BibValues Proofs.BibEntry.
+  Model.Scanner Model.BibParser Proofs.Scanner Proofs.BibParser Proofs.BibStrict Proofs.BibStrictFirst Proofs.BibValues Proofs.BibEntry.
 
 (* TOTALITY: for every text whatsoever and every reporting mode, reading terminates within
    the model's fuel (|text|+1 per loop), raises no foreign exception (IndexError in
@@ -52,17 +52,24 @@ Theorem capture_equals_nonstrict : forall text, parse_bib NonStrict text = parse
 Proof. exact parse_bib_ns_all. Qed.
 Print Assumptions capture_equals_nonstrict.
 
-(* STRICT MODE: if strict mode returns a database at all, then no error handler was ever
-   called: capture mode returns the very same database and final state and reports nothing;
-   and whenever capture mode reports at least one problem, strict mode raises a pybtex error.
-   PARTIAL (strict_raises_first of DESIGN.md): that the error raised is exactly the FIRST one
-   capture mode records, and that strict mode succeeds whenever capture mode reports nothing,
-   are not proved (the oracle checks both on every generated input). *)
-Theorem strict_raises_first_partial : forall text,
+(* STRICT MODE raises exactly the FIRST problem: for every text, with (d, s) the database and
+   final state of capture mode (which always exist unless a pybtex error is raised directly),
+   (1) if capture mode reports nothing, strict mode returns the very same database and state;
+   (2) if strict mode raises a pybtex error (class c, line l), that error is the first one
+       capture mode records;
+   (3) if strict mode returns, capture mode returns the same and reports nothing; and whenever
+       capture mode reports something, strict mode raises a pybtex error. *)
+Theorem strict_raises_first : forall text,
+  (forall d s, parse_bib Capture text = Ret d s -> p_errs s = [] -> parse_bib Strict text = Ret d s) /\
+  (forall c l d s, parse_bib Strict text = Fatal (FErr c l) -> parse_bib Capture text = Ret d s ->
+     exists e rest, p_errs s = e :: rest /\ e_cls e = c /\ e_line e = l) /\
   (forall d s, parse_bib Strict text = Ret d s -> parse_bib Capture text = Ret d s /\ p_errs s = []) /\
   (forall d s, parse_bib Capture text = Ret d s -> p_errs s <> [] -> exists c l, parse_bib Strict text = Fatal (FErr c l)).
-Proof. intros text. split; [exact (strict_success text)|exact (strict_raises text)]. Qed.
-Print Assumptions strict_raises_first_partial.
+Proof.
+  intros text. split; [exact (strict_no_error text)|]. split; [exact (strict_raises_first_lemma text)|].
+  split; [exact (strict_success text)|exact (strict_raises text)].
+Qed.
+Print Assumptions strict_raises_first.
 
 (* CONFINEMENT, command level (the character-level statement is left to the correspondence
    run and the oracle: see notes/C10.md).
